@@ -860,7 +860,7 @@ BEAT3_CFG = ("SPECIFICATION Spec\nCONSTANTS PI = %d PT = %d MaxNow = %d Gaps = {
 def c07(ctx):
     q = ctx.quick
     for pi, pt in ((3, 2), (2, 3)) if q else ((3, 2), (2, 3), (4, 4), (1, 5)):
-        M.tlc_model(ctx, "Beat", BEAT_CFG % (pi, pt, 16 if q else 24, "{99, 0, 1, 2, 3, 4}"), "beat_%d_%d" % (pi, pt))
+        M.tlc_model(ctx, "Beat", BEAT_CFG % (pi, pt, 16 if q else 20, "{99, 0, 1, 2, 3, 4}"), "beat_%d_%d" % (pi, pt), timeout=2400)
         # revision 3: the client pings (gaps from a grid that includes the deadline itself), one deadline timer, the tick window
         M.tlc_model(ctx, "Beat3", BEAT3_CFG % (pi, pt, 16 if q else 24, "{}", "R3_Exact R3_NotLate R3_AcceptedBefore"), "beat3_%d_%d" % (pi, pt))
     sens = {}
